@@ -177,6 +177,14 @@ func checkC05(c *Ctx) {
 					usedGlobals[g.Name()] = true
 				}
 			}
+			// `for i, c := range ck` reads the whole array once and indexes the copy
+			if ld, ok := in.(*ssa.UnOp); ok && ld.Op == token.MUL {
+				if g, isG := ld.X.(*ssa.Global); isG {
+					if _, isArr := ld.Type().Underlying().(*types.Array); isArr {
+						usedGlobals[g.Name()] = true
+					}
+				}
+			}
 		})
 	}
 	var ckSeen, fkSeen bool
